@@ -139,6 +139,22 @@ pub fn jobs(thorough: bool) -> Vec<Job> {
 	for s in ["*a", "&a", "&a *a", "a: &a\n  b: *a\n", "&a [*a]", "- &x\n- *x\n- *y\n", "? &k a\n: *k\n", "&a &b c", "*a: 1", "a: *a", "&a : &b", "--- &a\n...\n--- *a\n", "<<: *a", "a: &a {<<: *a}"] {
 		out.push(Job { input: s.as_bytes().to_vec(), family: "yaml-anchors", srcs: vec![Some(F::Yaml), None], heavy: false });
 	}
+	// UTF-16/32 YAML whose multi-byte characters sit across the re-encoder's / parser's buffer edges
+	for boundary in [8192usize, 16384, 24576] {
+		for ch in ["é", "€", "😀"] {
+			for align in 0..4usize {
+				let mut text = format!("k: \"{}", "p".repeat(boundary - 40 + align));
+				for _ in 0..24 {
+					text.push_str(ch);
+				}
+				text.push_str(&"q".repeat(3000));
+				text.push_str("\"\n");
+				for enc in 0..4u32 {
+					out.push(Job { input: super::c01::encode_text(&text, enc), family: "utf16/32-yaml-buffer-edges", srcs: vec![Some(F::Yaml), None], heavy: false });
+				}
+			}
+		}
+	}
 	// valid inputs paired with targets that must refuse them: the refused value at every node path
 	let trees = vals::trees(if thorough { 5 } else { 4 }, &[V::Int(1), V::s("a")], &["a", "b", "c", "d"]);
 	let bads = [V::Null, V::Bytes(vec![0xff]), V::Float(f64::NAN.to_bits()), V::Int((1 << 64) - 1), V::Map(vec![(V::Null, V::Int(1))]), V::Map(vec![(V::Arr(vec![]), V::Int(1))]), V::F32(0x7fc00000)];
@@ -303,12 +319,12 @@ pub fn run(ctx: &Ctx) -> CheckOutput {
 	let req = |k: &str| (k.to_string(), *tally.counters.get(k).unwrap_or(&0));
 	let required = vec![
 		req("family:tokens"), req("family:seed-edits-and-prefixes"), req("family:all-bytes<=2"), req("family:nesting"), req("family:msgpack-declared-lengths"),
-		req("family:yaml-alias-bombs"), req("family:yaml-anchors"), req("family:refused-value-at-every-node"), req("family:empty"), req("binary:debug"), req("binary:release"),
+		req("family:yaml-alias-bombs"), req("family:yaml-anchors"), req("family:refused-value-at-every-node"), req("family:empty"), req("family:utf16/32-yaml-buffer-edges"), req("binary:debug"), req("binary:release"),
 	];
 	CheckOutput {
 		level: "exploration",
 		tally,
-		rule: format!("{njobs} inputs: all token sequences per format (one step deeper than C02's quick tier in the thorough tier), every prefix and single-edit neighbour of the seed corpus, all byte strings <= 2, empty input; adversarial families enumerated completely: nesting of every bracket kind of every format (closed and unclosed, depths up to 10^5{}), every MessagePack header with a declared length in {{0,1,15,16,255,256,65535,65536,2^31,2^32-1}} followed by 0-3 payload bytes (bare and inside an array), YAML alias bombs (fan-out and depth in {{1,2,5,9}}), lone / undefined / self-referential anchors, and a value the target refuses (null, binary, NaN, 2^64-1, null key, array key, f32 NaN) planted at every node of every collection tree; each x source selections (named and detected) x 4 targets x slice and reader (all chunkings for inputs <= 6 bytes, two default policies, <= 1 deviation towards JSON). Runs in {} worker processes on their default main-thread stack with RLIMIT_AS = 24 GiB: a caught panic, a worker killed by a signal (abort, stack overflow, allocation failure) or 90 s without progress is a violation attributed to the job in flight. The adversarial families also go through the debug and release binaries (file and stdin): exit status 0 or 1 only.", if thorough { " and 10^6" } else { "" }, crate::util::threads()),
+		rule: format!("{njobs} inputs: all token sequences per format (one step deeper than C02's quick tier in the thorough tier), every prefix and single-edit neighbour of the seed corpus, all byte strings <= 2, empty input; adversarial families enumerated completely: nesting of every bracket kind of every format (closed and unclosed, depths up to 10^5{}), every MessagePack header with a declared length in {{0,1,15,16,255,256,65535,65536,2^31,2^32-1}} followed by 0-3 payload bytes (bare and inside an array), UTF-16/32 YAML with multi-byte characters across the 8/16/24 KiB buffer edges in every alignment, YAML alias bombs (fan-out and depth in {{1,2,5,9}}), lone / undefined / self-referential anchors, and a value the target refuses (null, binary, NaN, 2^64-1, null key, array key, f32 NaN) planted at every node of every collection tree; each x source selections (named and detected) x 4 targets x slice and reader (all chunkings for inputs <= 6 bytes, two default policies, <= 1 deviation towards JSON). Runs in {} worker processes on their default main-thread stack with RLIMIT_AS = 24 GiB: a caught panic, a worker killed by a signal (abort, stack overflow, allocation failure) or 90 s without progress is a violation attributed to the job in flight. The adversarial families also go through the debug and release binaries (file and stdin): exit status 0 or 1 only.", if thorough { " and 10^6" } else { "" }, crate::util::threads()),
 		exhaustive: true,
 		bounds: json!({"deviations": 1, "watchdog_s": 90}),
 		assumptions: vec!["termination is judged by a 90 s no-progress watchdog (the slowest legitimate job measured takes under 10 s)".into()],
